@@ -29,3 +29,11 @@ def forLoop {σ ρ : Type} (fuel : Nat) (s : σ) (cond : σ → Bool) (body : σ
     else some (.next s)
 
 end Gtree.Go
+
+namespace Gtree.Go
+/-- `l.Back()` of the list of the stack of open nodes (kept root first): the node in the last element, nil when
+    the list is empty -/
+def listBack (l : List Ptr) : Ptr := l.getLastD nilPtr
+/-- `l.Remove(l.Back())` -/
+def listDropBack (l : List Ptr) : List Ptr := l.dropLast
+end Gtree.Go
